@@ -1,6 +1,7 @@
 import BlochVerif.Eval.Flags
 import BlochVerif.Eval.Model
 import BlochVerif.Eval.FlagsAgree
+import BlochVerif.Eval.GateCall
 import BlochVerif.Eval.Control
 /-!
 # C06 — a measured qubit cannot be operated on until reset
@@ -307,6 +308,30 @@ theorem guard_passes_implies_simulator_accepts (st st' : EState) (hi : Agree st)
       unfold Sim.ensureActive
       rw [if_neg (by omega)]
       simp [hf]
+
+open BlochVerif BlochVerif.Eval BlochVerif.Parse in
+/-- **The life cycle of a measured qubit in the evaluator**, for every state and every access path (the guard and the three
+operations take the qubit by index): (1) after a successful `measure q`, every further operation on `q` is refused with a
+located runtime error — at whatever position it is attempted; (2) a built-in gate call — on any operands — leaves the
+evaluator's flags exactly as they were, so neither a refusal nor a permission can be changed by operating on *other*
+qubits; (3) after a successful `reset q` the guard lets `q` through again. -/
+theorem measured_until_reset (st st' : EState) (q : Int) (p p' : P) :
+    (∀ v, (measureQubit q p).run st = .ok (v, st') →
+        (ensureQubitActive q p').run st' = .error (.runtime p'.line p'.col "qubit has already been measured")) ∧
+    (∀ name argv, (applyBuiltin name argv p).run st = .ok ((), st') → st'.qubits = st.qubits) ∧
+    ((resetQubit q p).run st = .ok ((), st') → (ensureQubitActive q p').run st' = .ok ((), st')) :=
+  ⟨fun v h => measure_makes_unusable st st' q p p' v h,
+   fun name argv h => gate_call_keeps_the_flags st st' name argv p h,
+   fun h => reset_makes_usable st st' q p' (by
+     -- `resetQubit` uses its position only in its own refusal, which a successful run did not take
+     unfold resetQubit ensureQubitExists at h ⊢
+     by_cases h1 : (q < 0) ∨ (st.qubits.length : Int) ≤ q
+     · simp only [run_bind', run_get, ebind_ok, run_ite, run_rtErr, run_pure, Bool.or_eq_true, decide_eq_true_eq, h1,
+         if_true, ge_iff_le, ebind_err] at h
+       cases h
+     · simp only [run_bind', run_get, ebind_ok, run_ite, run_rtErr, run_pure, Bool.or_eq_true, decide_eq_true_eq, h1,
+         if_false, ge_iff_le] at h ⊢
+       exact h)⟩
 
 /-! ### non-vacuity -/
 example : firstRefused [false, false] [.gate 0, .measure 0, .gate 1, .reset 0, .gate 0, .measureArr [0, 1], .cx 1 0] 0 = some 6 := by
